@@ -6,6 +6,7 @@ import (
 	"time"
 
 	"github.com/KevoDB/kevo/pkg/config"
+	"github.com/KevoDB/kevo/pkg/verifhook"
 )
 
 // CompactionCoordinatorOptions holds configuration options for the coordinator
@@ -227,6 +228,7 @@ func (c *DefaultCompactionCoordinator) runCompactionCycle() error {
 		return nil
 	}
 
+	verifhook.Point("compaction.cycle.after_select")
 	// Mark files as pending
 	for _, files := range task.InputFiles {
 		for _, file := range files {
@@ -237,6 +239,7 @@ func (c *DefaultCompactionCoordinator) runCompactionCycle() error {
 	// Perform compaction
 	outputFiles, err := c.executor.CompactFiles(task)
 
+	verifhook.Point("compaction.cycle.after_compact")
 	// Unmark files as pending
 	for _, files := range task.InputFiles {
 		for _, file := range files {
@@ -257,6 +260,7 @@ func (c *DefaultCompactionCoordinator) runCompactionCycle() error {
 		return fmt.Errorf("compaction failed: %w", err)
 	}
 
+	verifhook.Point("compaction.cycle.before_obsolete")
 	// Mark input files as obsolete
 	for _, files := range task.InputFiles {
 		for _, file := range files {
@@ -264,6 +268,7 @@ func (c *DefaultCompactionCoordinator) runCompactionCycle() error {
 		}
 	}
 
+	verifhook.Point("compaction.cycle.before_cleanup")
 	// Try to clean up the files immediately
 	return c.fileTracker.CleanupObsoleteFiles()
 }
